@@ -31,6 +31,10 @@ pub struct Case {
     /// exponent steps (as far as possible)
     #[serde(default)]
     pub reduce: u8,
+    /// uploads: every request also carries a Block2 option (block 0) with this
+    /// size exponent, the client's preference for a large reply
+    #[serde(default)]
+    pub upload_block2: Option<u8>,
 }
 
 impl Case {
@@ -342,7 +346,8 @@ fn run_upload(c: &Case, acc: &mut Acc) -> Result<bool, Fail> {
                 let is_final = end == data.len();
                 mid += 1;
                 let num = (offset / size) as u32;
-                let req = c.request(mid, Some(block_bytes(num, !is_final, szx)), None, data[offset..end].to_vec());
+                let want_b2 = c.upload_block2.map(|s| block_bytes(0, false, s));
+                let req = c.request(mid, Some(block_bytes(num, !is_final, szx)), want_b2, data[offset..end].to_vec());
                 let out = exchange(&mut handler, &req.msg().encode().unwrap(), 1, &mut |_r| Some(reply.clone()));
                 let ctx = format!(
                     "upload, budget {}, request overhead {}, client szx {cs}, current szx {szx}, block {num}{}",
@@ -374,6 +379,22 @@ fn run_upload(c: &Case, acc: &mut Acc) -> Result<bool, Fail> {
                     None => fail!("c10-block-malformed", "reply to an upload block carries no valid Block1 ({ctx})"),
                 };
                 check_block_size("Block1 acknowledgement", &b, Some(szx), &ctx)?;
+                if let (Some(s2), Some(b2)) = (c.upload_block2, find_opt(resp, OPT_BLOCK2).and_then(|x| parse_block(x))) {
+                    // the reply to the upload is itself fragmented: bound by the
+                    // Block2 preference sent along with the upload
+                    acc.class("upload:reply-fragmented-with-client-block2");
+                    near = true;
+                    check_block_size("Block2 of the reply to an upload", &b2, Some(s2), &ctx)?;
+                    let client_size = 16usize << s2;
+                    if s2 <= 6 && client_size + c.response_overhead() + 32 <= c.budget {
+                        ensure!(
+                            b2.szx == s2,
+                            "c10-client-size-not-honoured",
+                            "the upload asked for its reply in {client_size}-byte blocks, which fit the budget with at least 32 bytes to spare, but {} was used ({ctx})",
+                            b2.size()
+                        );
+                    }
+                }
                 if blocks == 0 {
                     let client_size = 16usize << cs;
                     if cs <= 6 && client_size + probe_overhead.max(req.overhead()) + 32 <= c.budget {
@@ -473,9 +494,10 @@ fn case() -> BoxedStrategy<Case> {
                 resp_options,
                 client_szx,
                 body_len: body_len.min(6000),
-                reply_len,
+                reply_len: if upload && r & 0x3000 == 0x3000 { 40 + (r as usize >> 3) % 1500 } else { reply_len },
                 high_blocks: false,
                 reduce: if r & 0x4000 != 0 { 1 + (r >> 12 & 3) as u8 } else { 0 },
+                upload_block2: if upload && r & 0x3000 == 0x3000 { Some((r >> 5) as u8 % 7) } else { None },
             };
             let lo = c.min_budget();
             let hi = 1280usize;
@@ -525,6 +547,7 @@ pub fn run(ctx: &Ctx, rep: &mut Report) {
                 reply_len: 3,
                 high_blocks: false,
                 reduce: 0,
+                upload_block2: None,
             };
             let overhead = if upload { base.request_overhead() } else { base.reply().overhead(4) };
             let lo = base.min_budget();
@@ -580,6 +603,7 @@ pub fn run(ctx: &Ctx, rep: &mut Report) {
                         reply_len: 0,
                         high_blocks: false,
                 reduce: 0,
+                upload_block2: None,
                     };
                     let overhead = if upload { base.request_overhead() } else { base.reply().overhead(token_len as usize) };
                     let lo = base.min_budget();
@@ -624,6 +648,7 @@ pub fn run(ctx: &Ctx, rep: &mut Report) {
                 reply_len: 0,
                 high_blocks: true,
                 reduce: 0,
+                upload_block2: None,
             };
             let overhead = base.reply().overhead(token_len as usize);
             let lo = base.min_budget();
